@@ -76,17 +76,10 @@ def spec_positional(cx, cy, cz):
     return [[th1[0], th2[0], th3[0]], [th1[0], th2[1], th3[1]], [th1[1], th2[2], th3[2]], [th1[1], th2[3], th3[3]]]
 
 
-def run(ctx):
-    prog = ctx.prog
-    ctx.rule('R02.4', 'theta1..theta5 of the 5-DOF solver equal the first five columns of the 6-DOF candidate table (sibling agreement)')
-    ctx.rule('R02.5', 'theta1..theta3 of the four positional branches equal the published OPW closed form over the wrist centre and the parameters (ring normal form over function atoms)')
-    ctx.rule('R02.1', 'F_i(G_i(theta)) = theta for the forward joint map F and the inverse joint map G (ring normal form, s*s = 1), same index i')
-    ctx.rule('R02.2', 'candidate table closure: row k+4 = wrist flip of row k (theta4 + pi, -theta5, theta6 - pi), shared theta1 per shoulder branch, loop over the whole table')
-    ctx.rule('R02.3', 'theta4/theta5/theta6 of branches 0..3 are one term template over the branch\'s own sin/cos(theta1), sin/cos(theta2+theta3)')
-    six, five = opw.intern_solvers(prog)
-    ctx.require(six is not None and five is not None, 'internal solvers')
+def check_inverse_map(ctx, b, ncol, rule):
+    """F_i(G_i(theta)) = theta for the mapping written into the candidate array of solver b"""
     ring = algebra.Ring(unit_square=sign_atom)
-    for b, ncol in ((six, 6), (five, 5)):
+    if True:
         ctx.fn(b)
         name = b.path.split('::')[-1]
         th0, sols0 = util.table_locals(b)
@@ -112,15 +105,28 @@ def run(ctx):
                     strip(sgn[0][2]) == strip(ji) and strip(strip(thetas[0][1])[2]) == strip(si)
                 ident = False
                 if idx_ok:
-                    s = ('cast', sgn[0], 'f64')
-                    comp = ('bin', 'Sub', ('bin', 'Mul', V, s), offs[0])
+                    s_ = ('cast', sgn[0], 'f64')
+                    comp = ('bin', 'Sub', ('bin', 'Mul', V, s_), offs[0])
                     ident = ring.equal(algebra.canon(comp), algebra.canon(thetas[0]))
                 cover = util.const_val(r[0]) == 0 and util.const_val(r[1]) == ncol
-                ctx.check(idx_ok and ident and cover, 'R02.1', name + '/inverse-map', b.where(i, j), b.path,
+                ctx.check(idx_ok and ident and cover, rule, name + '/inverse-map', b.where(i, j), b.path,
                           'the angle written into a candidate is not (theta + offsets[i]) * sign[i] for the same i over all %d joints: same-index=%s F(G(theta))=theta %s loop 0..%s' % (
                               ncol, idx_ok, ident, util.const_val(r[1])),
                           found=show(V, maxdepth=5), detail=show(V, maxdepth=4))
-        ctx.check(found, 'R02.1', name + '/inverse-map-site', b.where(0), b.path, 'the sign/offset mapping of the candidate table was not found')
+        ctx.check(found, rule, name + '/inverse-map-site', b.where(0), b.path, 'the sign/offset mapping of the candidate table was not found')
+
+
+def run(ctx):
+    prog = ctx.prog
+    ctx.rule('R02.4', 'theta1..theta5 of the 5-DOF solver equal the first five columns of the 6-DOF candidate table (sibling agreement)')
+    ctx.rule('R02.5', 'theta1..theta3 of the four positional branches equal the published OPW closed form over the wrist centre and the parameters (ring normal form over function atoms)')
+    ctx.rule('R02.1', 'F_i(G_i(theta)) = theta for the forward joint map F and the inverse joint map G (ring normal form, s*s = 1), same index i')
+    ctx.rule('R02.2', 'candidate table closure: row k+4 = wrist flip of row k (theta4 + pi, -theta5, theta6 - pi), shared theta1 per shoulder branch, loop over the whole table')
+    ctx.rule('R02.3', 'theta4/theta5/theta6 of branches 0..3 are one term template over the branch\'s own sin/cos(theta1), sin/cos(theta2+theta3)')
+    six, five = opw.intern_solvers(prog)
+    ctx.require(six is not None and five is not None, 'internal solvers')
+    for b, ncol in ((six, 6), (five, 5)):
+        check_inverse_map(ctx, b, ncol, 'R02.1')
 
     # ---- R02.2 on the 6-DOF table
     t6 = theta_table(six)
